@@ -73,6 +73,9 @@ func builtinFunctionToString(call FunctionCall) Value {
 	}
 }
 
+// maxApplyArguments bounds the argument list apply builds from an array-like.
+const maxApplyArguments = 1 << 20
+
 func builtinFunctionApply(call FunctionCall) Value {
 	if !call.This.isCallable() {
 		panic(call.runtime.panicTypeError("Function.apply %q is not callable", call.This))
@@ -94,6 +97,10 @@ func builtinFunctionApply(call FunctionCall) Value {
 	arrayObject := argumentList.object()
 	thisObject := call.thisObject()
 	length := int64(toUint32(arrayObject.get(propertyLength)))
+	if length > maxApplyArguments {
+		// {length: -1} claims 2^32-1 arguments: that is a 96 GB argument list.
+		panic(call.runtime.panicRangeError(fmt.Sprintf("Function.prototype.apply: too many arguments (array-like length %d)", length)))
+	}
 	valueArray := make([]Value, length)
 	for index := range length {
 		valueArray[index] = arrayObject.get(arrayIndexToString(index))
